@@ -5,10 +5,10 @@ from .common import TRUSTED, ASSUMPTIONS, default_nontrivial, LEVEL_NOTE, TECHNI
 from . import C19 as _C19
 
 LEVEL = "proof"
-THEOREMS = ['C13_roundtrip', 'C13_projection', 'C13_cfuse_eq_acm', 'C13_afuse_eq_avg', 'C13_wfuse_eq_wgh', 'C13_cfuse_err_iff', 'C13_two_dogmatic_mean', 'C13_vacuous_band_within']
+THEOREMS = ['C13_roundtrip', 'C13_projection', 'C13_cfuse_eq_acm', 'C13_afuse_eq_avg', 'C13_wfuse_eq_wgh', 'C13_cfuse_err_iff', 'C13_two_dogmatic_mean', 'C13_vacuous_band_within', 'C13_both_vacuous_band_base_rate_cfuse', 'C13_both_vacuous_band_base_rate_wfuse']
 RULE = ("bconv (round trip) and bvs (cfuse/afuse/wfuse vs FuseOp on converted operands, both computed by the implementation) on pairs "
         "of well-formed binomial opinions: 1/8 grid incl. vacuous/dogmatic/zero-one base rates (exhaustive in thorough), random dyadic "
-        "up to 1/64, nearly vacuous (1-u in 1e-3..1e-15) and nearly dogmatic (u in 1e-3..1e-12) operands; u in (0,eps] excluded; "
+        "up to 1/64, nearly vacuous (1-u in 1e-3..1e-15) and nearly dogmatic (u in 1e-3..1e-12) operands; u in (0,eps] excluded; a single operand in the vacuity band [1-2eps,1) excluded, BOTH operands vacuous by the guard: base rates of the two families must agree (clause both_vacuous_band_base_rate, theorems C13_both_vacuous_band_base_rate_cfuse/_wfuse); "
         "bconv_all: EVERY conversion path (Opinion1d::from / .into(), BOpinion::from / .into() by value and BY REFERENCE, the "
         "&BSimplex -> &Simplex1d view, a second trip) with the projections of both representations, on the grid, dyadic, arbitrary "
         "non-dyadic floats and nearly dogmatic / nearly vacuous opinions (u resp. 1-u in 1e-3..1e-15), base rates other than 1/2: "
@@ -19,7 +19,7 @@ RULE = ("bconv (round trip) and bvs (cfuse/afuse/wfuse vs FuseOp on converted op
 EXHAUSTIVE = {}
 LEVEL_TEXT = ("Theorems over the exact model: conversion round trip is the identity and preserves the projection; on operands whose "
               "uncertainties avoid the tolerance bands the binomial cfuse/afuse/wfuse return exactly the conversion of the multinomial "
-              "ACm/Avg/Wgh result (arm by arm); cfuse errs iff both operands are dogmatic. Tied by the correspondence check; the equality "
+              "ACm/Avg/Wgh result (arm by arm); with BOTH operands in the vacuity band both families return the mean of the base rates; cfuse errs iff both operands are dogmatic. Tied by the correspondence check; the equality "
               "of the two families is evaluated directly on the implementation's two results.")
 
 
